@@ -134,7 +134,9 @@ func (p *Path) TreePrefix() string {
 		case p.relativePath != "":
 			return p.relativePath + "/"
 		default:
-			return "???"
+			// We never found a name for this tree (e.g., it is only
+			// reachable via an annotated tag), so use its OID:
+			return p.OID.String() + ":"
 		}
 	case "commit", "tag":
 		switch {
